@@ -1064,28 +1064,27 @@ def describe(case):
 
 REQUIRED = ['pav_eq_spec', 'pavSpec_some_iff', 'pav_returns_iff_unique_maximiser', 'pav_refuses_iff', 'pav_maximises',
             'pav_result_shape', 'pav_order_desc', 'pav_cache_independent', 'pavSeq_eq_map',
-            'pav_jr_unrepresented', 'pav_justified_representation',
+            'pav_jr_unrepresented', 'pav_justified_representation', 'harmonic_eq_sum', 'pav_coefs_exact',
             'spav_eq_spec', 'spav_round_argmax', 'spav_error_is_tie',
             'score_aggregate_eq_spec', 'mj_median_is_lower_median', 'score_mean_exact', 'score_eq_spec',
             'score_truncation_eq_spec', 'score_unscored_eq_spec', 'score_min_count_eq_spec',
-            'mj_elects_highest_medians', 'star_runoff_pairwise', 'star_eq_schulze_of_runoff',
-            'allocated_spends_one_quota', 'allocated_fraction_out_spec', 'allocated_tie_places_fixed',
+            'mj_elects_highest_medians', 'mj_default_eq_spec', 'mj_median_stable_below_closest_change', 'star_runoff_pairwise', 'star_eq_schulze_of_runoff',
+            'allocated_spends_one_quota', 'allocated_fraction_out_spec', 'allocated_eq_spec', 'allocated_tie_places_fixed',
             'star_members_spec', 'star_member_matrix', 'star_two_finalists',
             'star_single_runoff_fixed', 'star_boundary_tie_fixed', 'star_member_dropped_fixed',
             'mj_default_tiebreak_witness', 'mj_default_tiebreak_scale_witness', 'allocated_empty_ballot_witness',
             'allocated_ballots_run_out_witness']
 
 UNPROVED = [
-    'mj_default_tiebreak_eq_one_at_a_time: for tied candidates holding equally many grades the default tie-break (removal of '
-    '`closest_change` median grades per step) equals the one-grade-at-a-time Balinski-Laraki rule (oracle-checked on every '
-    'generated case; FALSE for unequal numbers of grades: mj_default_tiebreak_witness)',
+    'mj_fuel_adequate: that the model of `_tiebreak_default` never exhausts the fuel the driver passes (Σ counts + #candidates + 1); '
+    'mj_default_eq_spec is stated for every outcome other than the fuel error, which the correspondence never observes',
     'schulze_correct: that the Schulze evaluator called for run-offs of more than two finalists ranks by true beatpath strength '
     'is C05 territory; for STAR it is proved that the evaluator is called on exactly the member matrix (star_eq_schulze_of_runoff, '
     'star_members_spec, star_member_matrix) and that two finalists are decided by pairwise majority (star_two_finalists)',
-    'allocated_eq_spec (whole loop): the sequence of winners equals the defining round-by-round procedure on every profile '
-    '(FALSE on the current code for exhausted / bullet ballots and order-dependent under ties: allocated_*_witness, open '
-    'findings); proved: every seat spends exactly one quota of the strongest supporters (allocated_spends_one_quota, '
-    'allocated_fraction_out_spec)',
+    'allocated score outside the domain of allocated_eq_spec: rounds with tied leaders (the elect-all / report-tie branches, '
+    'order dependent: open finding) and profiles where a ballot runs out (the code raises: allocated_*_witness, open findings); '
+    'proved: equality with the round-by-round definition on every profile where each round has a strict winner and no ballot '
+    'runs out (allocated_eq_spec), and the exact quota spending of every seat',
 ]
 NOT_VERIFIED = [
     'iteration order of a Python set of candidates (Tie, frozenset) is modelled as ascending candidate id; the harness uses '
@@ -1117,7 +1116,7 @@ LEVEL_TEXT = ('PAV, SPAV, score aggregation, majority judgment (first stage), th
               'independently of the instance history; PAV committees satisfy justified representation; every SPAV round elects the '
               'strict arg-max of the reweighted approvals; aggregates are the exact weighted mean / sum / lower median; MJ elects '
               'above and never below the n-th highest median; every allocated-score seat spends exactly one quota of the strongest '
-              'supporters. STAR is the Schulze selection on the exact pairwise matrix of its run-off members (boundary ties all enter). The MJ default tie-break and the allocated-score round loop as a whole are modelled '
+              'supporters. STAR is the Schulze selection on the exact pairwise matrix of its run-off members (boundary ties all enter). The MJ default tie-break is proved equal to the one-grade-at-a-time rule on every table; the allocated-score loop is proved equal to its round-by-round definition on every profile where each round has a strict winner and no ballot runs out; outside that domain they are modelled '
               'and tied by correspondence; their defects on the current code are proved as witnesses and recorded '
               'as open findings.')
 LEVEL_NOTE = ('Trusted: Lean kernel + propext/Classical.choice/Quot.sound; translate.py for the quota functions; the correspondence '
